@@ -9,7 +9,8 @@
 (*   Del   r, off    ReadMessage of r returned offset off                  *)
 (*   REnd  r, err    ReadMessage of r returned an error                    *)
 (*   SetHW / SetRO   completed calls                                       *)
-(*   Final r, err    state of r at quiescence: blocked | rodone | dead ... *)
+(*   Final r, err    state of r at quiescence: blocked | rodone | dead |   *)
+(*                   lost (asleep in waitForHW, not a registered waiter)   *)
 (*   Quiet           quiescence reached (all writers done)                 *)
 (* The predicates are those of Reader.tla (DelOK) on the history.          *)
 EXTENDS Integers, Sequences, FiniteSets, TLC, Json
@@ -62,6 +63,11 @@ TraceNext ==
                   /\ UNCHANGED <<st, fin>>
              [] e.a = "REnd" ->
                   /\ Chk(e.err = "readonly", "P", e, "C03_ReaderFailed")
+                  /\ UNCHANGED <<dl, st, fin>>
+             [] e.a = "SetHW" ->
+                  \* once SetHighWatermark(h) has returned the HW is at least h
+                  \* (whoever else sets it at the same time)
+                  /\ Chk(e.hw >= e.off, "P", e, "C03_HWMonotone")
                   /\ UNCHANGED <<dl, st, fin>>
              [] e.a = "Final" ->
                   /\ fin' = [fin EXCEPT ![e.r] = e.err]
